@@ -36,6 +36,12 @@ type solver struct {
 	defined map[int]bool
 	depth   int
 	timeoutMs int
+	script  []string // path-scope declarations and assertions (for one-shot queries)
+	hasFP   bool
+	oneShotN int
+	oneShotS float64
+	crossChecked int
+	scratch string
 }
 
 func solverArgv(name string, timeoutMs int) []string {
@@ -78,6 +84,9 @@ func newSolver(name string, timeoutMs int) (*solver, error) {
 }
 
 func (s *solver) close() {
+	if s.scratch != "" {
+		os.RemoveAll(s.scratch)
+	}
 	s.w.Flush()
 	s.in.Close()
 	done := make(chan struct{})
@@ -95,6 +104,9 @@ func (s *solver) send(cmd string) {
 	}
 	s.w.WriteString(cmd)
 	s.w.WriteByte('\n')
+	if s.depth == 1 && (strings.HasPrefix(cmd, "(declare-fun") || strings.HasPrefix(cmd, "(assert")) {
+		s.script = append(s.script, cmd)
+	}
 }
 
 // readSexp reads one balanced s-expression or atom line from the solver.
@@ -140,6 +152,8 @@ func (s *solver) pop()  { s.send("(pop 1)"); s.depth-- }
 func (s *solver) beginPath() {
 	s.push()
 	s.defined = map[int]bool{}
+	s.script = s.script[:0]
+	s.hasFP = false
 }
 
 func (s *solver) endPath() {
@@ -193,6 +207,9 @@ func (s *solver) define(t *Term) string {
 			continue
 		}
 		s.defined[x.id] = true
+		if x.sort.k == sFP || x.op >= oFpAdd {
+			s.hasFP = true
+		}
 		ref := func(a *Term) string {
 			switch a.op {
 			case oConst:
@@ -233,6 +250,18 @@ func (s *solver) check(extra *Term, vars []*Term) (satResult, map[string]uint64)
 	var n string
 	if extra != nil {
 		n = s.define(extra)
+	}
+	for _, v := range vars {
+		if v.sort.k == sFP && s.defined[v.id] {
+			s.hasFP = true
+		}
+	}
+	if s.hasFP {
+		// floating-point constraints: the incremental core of z3 is far slower
+		// than a fresh solver with its FP tactics, so decide these one-shot.
+		return s.oneShot(n, vars)
+	}
+	if extra != nil {
 		s.push()
 		s.send("(assert " + n + ")")
 	}
@@ -427,4 +456,88 @@ func tokenize(s string) []string {
 		}
 	}
 	return toks
+}
+
+
+// oneShot decides script ∧ extra with a fresh solver process (cvc5 first,
+// z3 when cvc5 does not answer).
+func (s *solver) oneShot(extra string, vars []*Term) (satResult, map[string]uint64) {
+	t0 := time.Now()
+	var sb strings.Builder
+	sb.WriteString("(set-logic ALL)\n(set-option :produce-models true)\n")
+	for _, l := range s.script {
+		sb.WriteString(l)
+		sb.WriteByte('\n')
+	}
+	if extra != "" {
+		sb.WriteString("(assert " + extra + ")\n")
+	}
+	sb.WriteString("(check-sat)\n")
+	var names []string
+	for _, v := range vars {
+		if s.defined[v.id] {
+			names = append(names, v.name)
+		}
+	}
+	if len(names) > 0 {
+		sb.WriteString("(get-value (" + strings.Join(names, " ") + "))\n")
+	}
+	if s.scratch == "" {
+		d, err := os.MkdirTemp("", "gosx-smt-")
+		if err != nil {
+			panic(engineError{"mkdtemp: " + err.Error()})
+		}
+		s.scratch = d
+	}
+	file := s.scratch + "/q.smt2"
+	if err := os.WriteFile(file, []byte(sb.String()), 0o644); err != nil {
+		panic(engineError{"write query: " + err.Error()})
+	}
+	res := rUnknown
+	var model map[string]uint64
+	for _, argv := range [][]string{
+		{"cvc5", "--lang=smt2", fmt.Sprintf("--tlimit=%d", s.timeoutMs), file},
+		{"/usr/bin/z3", fmt.Sprintf("-T:%d", s.timeoutMs/1000+1), file},
+	} {
+		out, _ := exec.Command(argv[0], argv[1:]...).Output()
+		txt := strings.TrimSpace(string(out))
+		first := txt
+		rest := ""
+		if i := strings.IndexByte(txt, '\n'); i >= 0 {
+			first, rest = strings.TrimSpace(txt[:i]), txt[i+1:]
+		}
+		switch first {
+		case "sat":
+			res = rSat
+			model = map[string]uint64{}
+			if strings.HasPrefix(strings.TrimSpace(rest), "((") {
+				parseModel(strings.TrimSpace(rest), model)
+			}
+		case "unsat":
+			res = rUnsat
+		default:
+			if strings.Contains(first, "error") && !strings.Contains(first, "timeout") && first != "unknown" {
+				s.stats.Errors++
+				panic(engineError{"one-shot solver error: " + txt})
+			}
+			continue
+		}
+		break
+	}
+	dt := time.Since(t0).Seconds()
+	s.stats.Queries++
+	s.stats.TimeS += dt
+	s.oneShotN++
+	if dt > s.stats.MaxQuery {
+		s.stats.MaxQuery = dt
+	}
+	switch res {
+	case rSat:
+		s.stats.Sat++
+	case rUnsat:
+		s.stats.Unsat++
+	default:
+		s.stats.Unknown++
+	}
+	return res, model
 }
